@@ -87,6 +87,21 @@ fn view(a: &Al<{n}>) -> &Un{ga} {{ unsafe {{ &*(a.0.as_ptr() as *const Un{ga}) }
 }}
 '''
     hs.append(h)
+    # values inside a slice-like container go through `Hash::hash_slice`: still one length-prefixed byte slice per value
+    h = Harness('h_hash_slice', unwind=10, covers=['reached'])
+    body += h.attrs() + f'''pub fn h_hash_slice() {{
+    let a = Al::<{n}>(Sym::sym());
+    let b = Al::<{n}>(Sym::sym());
+    let arr = [*view(&a), *view(&b)];
+    let got = rec_of(&arr);
+    let mut want = Rec::new();
+    core::hash::Hash::hash(&[&a.0[..], &b.0[..]][..], &mut want);
+    kani::cover!(true, "reached");
+    assert!(!got.overflow && !want.overflow);
+    assert!(got.same(&want), "a slice of unions does not feed each value as its own size_of::<Self>() byte slice");
+}}
+'''
+    hs.append(h)
     # clone: bytes when there is no padding anywhere, else every field
     if not padded and not generic:
         cmpc = f'    let yb: [u8; {n}] = unsafe {{ core::mem::transmute(y) }};\n    assert!(yb == a.0, "union clone is not a bitwise copy");\n'
